@@ -15,8 +15,8 @@ TECHNIQUE = ('differential + metamorphic runtime monitors on generated acyclic r
              'hooked into the real evaluation observe the current_rule argument')
 RULE = ('cases = acyclic rule sets over <= 8 names (acyclic including the undefined->default edge): random expression '
         'bodies mixing role checks, recording checks and rule: references; dedicated shapes: alias chains to depth 8, '
-        'diamonds, references under not/and/or, undefined references; with and without a default rule (by option '
-        'default name or constructor argument); every rule enforced under all 16 subsets of 4 roles. Non-trivial = the '
+        'diamonds, references under not/and/or, undefined references; with and without a default rule (option default name, constructor name, '
+        'constructor check object); every rule enforced under all 16 subsets of 4 roles. Non-trivial = the '
         'rule set contains at least one rule: reference reached from the enforced rule; distinct = distinct rule set.')
 ASSUMPTIONS = ['role:/@/! leaves evaluate as C01/C04 state', 'the harness registers two private check kinds and removes them afterwards']
 LEVEL_TEXT = ('Seeded sampling of acyclic reference graphs with targeted shapes (chains, diamonds, undefined references), '
@@ -79,6 +79,8 @@ def ev(ast, rules, default, roles, stats):
         stats['undefined'] = stats.get('undefined', 0) + 1
         if default is not None and default in rules:       # behaves like enforcing an unknown policy
             return ev(rules[default], rules, default, roles, stats)
+        if stats.get('object_default'):
+            return 'a' in roles                             # the default rule is a check object (role:a)
         return False
     if t == 'not':
         return not ev(ast[1], rules, default, roles, stats)
@@ -101,8 +103,8 @@ BASE_LEAVES = ['role:a', 'role:b', 'pvrec:c', 'pvrec3:d', 'role:c', '@', '!']
 
 def gen_ruleset(rnd):
     shape = rnd.choice(['random', 'random', 'random', 'chain', 'diamond'])
-    default_mode = rnd.choice(['none', 'option-default', 'ctor-name'])
-    default = {'none': None, 'option-default': 'default', 'ctor-name': 'fallback'}[default_mode]
+    default_mode = rnd.choice(['none', 'option-default', 'ctor-name', 'ctor-object'])
+    default = {'none': None, 'option-default': 'default', 'ctor-name': 'fallback', 'ctor-object': None}[default_mode]
     rules = {}
     order = []
     if default:
@@ -180,6 +182,9 @@ def build(policy, case, texts):
     if case['default_mode'] == 'ctor-name':
         kw['default_rule'] = case['default']
         dr = case['default']
+    if case['default_mode'] == 'ctor-object':
+        from oslo_policy import _checks
+        kw['default_rule'] = _checks.RoleCheck('role', 'a')
     enf = policy.Enforcer(conf, use_conf=False, **kw)
     enf.set_rules(policy.Rules.from_dict(texts, enf.default_rule))
     return enf
@@ -196,7 +201,7 @@ def check_case(ctx, case):
     ctx.observe('shapes', '%s/%s' % (case['shape'], case['default_mode']))
     for nm in rules:
         for roles in SUBSETS:
-            stats = {}
+            stats = {'object_default': case['default_mode'] == 'ctor-object'}
             want = ev(rules[nm], rules, default, roles, stats)
             del SEEN[:]
             try:
